@@ -101,7 +101,7 @@ func (c *Component) Resume() error {
 	case stanza.Handshake:
 		// Start the receiver go routine
 		c.updateState(StateSessionEstablished)
-		go c.recv()
+		go c.recv(c.transport)
 		return err // Should be empty at this point
 	default:
 		c.updateState(StatePermanentError)
@@ -123,9 +123,13 @@ func (c *Component) SetHandler(handler EventHandler) {
 }
 
 // Receiver Go routine receiver
-func (c *Component) recv() {
+//
+// A receiver serves one connection: the transport it is given. Resume installs a new transport for every
+// connection attempt, so neither the transport nor its decoder is fetched from the component again.
+func (c *Component) recv(transport Transport) {
+	decoder := transport.GetDecoder()
 	for {
-		val, err := stanza.NextPacket(c.transport.GetDecoder())
+		val, err := stanza.NextPacket(decoder)
 		if err != nil {
 			c.updateState(StateDisconnected)
 			c.ErrorHandler(err)
@@ -137,13 +141,20 @@ func (c *Component) recv() {
 			c.router.route(c, val)
 			c.streamError(p.Error.Local, p.Text)
 			c.ErrorHandler(errors.New("stream error: " + p.Error.Local))
+			if c.transport != transport {
+				// The event handler has already replaced the connection (Disconnect and Resume from inside the
+				// handler, as a StreamManager does for a client). The component's transport belongs to the new
+				// attempt now: closing it here would end a connection that was just established, and reading on
+				// would route what arrives there whatever became of its handshake.
+				return
+			}
 			// We don't return here, because we want to wait for the stream close tag from the server, or timeout.
 			c.Disconnect()
 			// The stream error has been handed to the router above: once is enough.
 			continue
 		case stanza.StreamClosePacket:
 			// TCP messages should arrive in order, so we can expect to get nothing more after this occurs
-			c.transport.ReceivedStreamClose()
+			transport.ReceivedStreamClose()
 			return
 		}
 		c.router.route(c, val)
